@@ -370,5 +370,22 @@ static void blk_sig_ct(void) {
 		static const size_t PL[] = { 1, 32, 100 }; for (int pi = 0; pi < 3; pi++) { uint8_t msg[100]; memset(msg, 0x77, sizeof msg); n = 0; if (sm9_encrypt(&em, "bob", 3, msg, PL[pi], der, &n) != 1) vh_harness_error("sm9 encrypt"); if (pi == 0 || vh_thorough) family("sm9_ciphertext", re_sm9ct, der, n); else { offer_reenc("sm9_ciphertext", re_sm9ct, der, n, "genuine"); } } }
 	vh_sample("{\"block\":\"signatures-and-ciphertexts\",\"families\":[\"sm2_signature\",\"sm2_ciphertext\",\"sm9_signature\",\"sm9_ciphertext\"]}");
 }
-static void body(void) { blk_decoders(); blk_sig_ct(); blk_text(); blk_composite(); blk_typed_pem(); blk_reused_destination(); blk_values(); }
+/* ---------- password-encrypted PKCS#8 under parameter sets OTHER than the one the library's own writer uses (salt 8 octets, 65536 iterations, keyLength 16, prf present):
+   salt lengths, iteration counts, keyLength absent (RFC 8018 makes it OPTIONAL) or present, prf absent (default) or present. Built with the public encoder from a genuine
+   encryption; the reader either opens it to the same key or refuses it - it never crashes, and a wrong password never opens ---------- */
+#include <gmssl/sm4.h>
+static void blk_pkcs8_params(void) {
+	if (!vh_block_begin("pkcs8-parameter-sets")) return; SM2_KEY k; sm2_z256_t z; sm2_z256_from_hex(z, "3945208F7B2144B13F36E38AC6D39F95889393692860B51A42FB81EF4DF7C5B8"); if (sm2_key_set_private_key(&k, z) != 1) vh_harness_error("key");
+	uint8_t pki[300], *p = pki; size_t pl = 0; if (sm2_private_key_info_to_der(&k, &p, &pl) != 1) vh_harness_error("pki"); static const size_t SL[] = { 1, 8, 16, 32, 64 }; static const int IT[] = { 1, 2, 1000, 65536, 70000 }, KLN[] = { -1, 16 }, PRF[] = { -1, OID_hmac_sm3 };
+	for (int si = 0; si < 5; si++) for (int ii = 0; ii < 5; ii++) for (int ki = 0; ki < 2; ki++) for (int pi = 0; pi < 2; pi++) { if (!vh_next()) continue; uint8_t salt[64], iv[16], key[16], enc[400], der[700]; size_t el = 0, dl = 0; for (int i = 0; i < 64; i++) salt[i] = (uint8_t)(0x31 + i + si); memset(iv, 0x42 + ii, 16); const char *pw = "P@ss";
+		if (sm3_pbkdf2(pw, strlen(pw), salt, SL[si], (size_t)IT[ii], 16, key) != 1) vh_harness_error("pbkdf2"); SM4_KEY sk; sm4_set_encrypt_key(&sk, key); if (sm4_cbc_padding_encrypt(&sk, iv, pki, pl, enc, &el) != 1) vh_harness_error("cbc");
+		p = der; if (pkcs8_enced_private_key_info_to_der(salt, SL[si], IT[ii], KLN[ki], PRF[pi], OID_sm4_cbc, iv, 16, enc, el, &p, &dl) != 1) { vh_obs("pkcs8 encoder refuses salt=%zu iter=%d keylen=%d prf=%d", SL[si], IT[ii], KLN[ki], PRF[pi]); continue; }
+		uint8_t *hb = (uint8_t *)malloc(dl); memcpy(hb, der, dl); SM2_KEY k2; memset(&k2, 0, sizeof k2); const uint8_t *cp = hb, *at; size_t il = dl, al; int r = sm2_private_key_info_decrypt_from_der(&k2, &at, &al, pw, &cp, &il); size_t kk[4] = { SL[si], (size_t)IT[ii], (size_t)(KLN[ki] + 1), (size_t)(PRF[pi] + 1) }; vh_eval(vh_hash(kk, sizeof kk, 61)); char key_[160];
+		if (r == 1 && (il || memcmp(k2.private_key, k.private_key, 32) || sm2_public_key_equ(&k, &k2) != 1)) { snprintf(key_, sizeof key_, "C14:pkcs8-parameter-sets:opens-to-another-key"); vh_viol(key_, "\"salt\":%zu,\"iter\":%d,\"keylen\":%d,\"prf\":%d", SL[si], IT[ii], KLN[ki], PRF[pi]); }
+		else if (r != 1 && SL[si] == 8 && IT[ii] == 65536) { /* the library's own salt / iteration choice with the OPTIONAL fields absent or present must open */ snprintf(key_, sizeof key_, "C14:pkcs8-parameter-sets:valid-container-refused:keyLength-%s:prf-%s", KLN[ki] < 0 ? "absent" : "present", PRF[pi] < 0 ? "absent" : "present"); vh_viol(key_, "\"ret\":%d", r); }
+		else if (r != 1) vh_obs("pkcs8 reader refuses salt=%zu iter=%d keylen=%d prf=%d", SL[si], IT[ii], KLN[ki], PRF[pi]);
+		cp = hb; il = dl; memset(&k2, 0, sizeof k2); int rw = sm2_private_key_info_decrypt_from_der(&k2, &at, &al, "P@sr", &cp, &il); vh_eval(vh_hash(kk, sizeof kk, 62)); if (rw == 1) { vh_viol("C14:pkcs8-parameter-sets:wrong-password-opens", "\"salt\":%zu,\"iter\":%d,\"keylen\":%d,\"prf\":%d", SL[si], IT[ii], KLN[ki], PRF[pi]); }
+		free(hb); vh_sample("{\"block\":\"pkcs8-parameter-sets\",\"salt\":%zu,\"iter\":%d,\"keylen\":%d,\"prf\":%d,\"opened\":%d}", SL[si], IT[ii], KLN[ki], PRF[pi], r == 1); }
+}
+static void body(void) { blk_decoders(); blk_pkcs8_params(); blk_sig_ct(); blk_text(); blk_composite(); blk_typed_pem(); blk_reused_destination(); blk_values(); }
 int main(int argc, char **argv) { vh_init(argc, argv); vh_guarded("C14", body, 120); return vh_finish(); }
